@@ -15,7 +15,7 @@ resolution semantics the templates (E2) assume:
 """
 from .core import AnalysisError
 from .facts import get_facts
-from .absint import Interp, Obj, FuncVal, ClassRef, InterpRaise, Uninterpretable, Unknown, explore
+from .absint import Interp, Obj, FuncVal, ClassRef, InterpRaise, Uninterpretable, Unknown, explore, Native
 
 SCOPE = 'supp/scope.py'
 NAME = 'supp/name.py'
@@ -332,6 +332,55 @@ def check_star_imports(repo, res, rule):
     _guard(exported, res, rule, 'a module exports every name it may bind at top level', SCOPE,
            'names bound on some paths only (if without else, try body, loop body) are bound at run time whenever that path is '
            'taken: they must be offered to star imports and from-imports like unconditionally bound ones')
+
+
+def check_dotted_imports(repo, res, rule):
+    """Writer / reader agreement on dotted imports: supp's own visit_Import is run (E1) on `import a.b.c, a.d`, and what it leaves
+    in the module scope's tables is handed to supp's own ImportedName.resolve: the module bound as `a` must offer b and d as
+    attributes, the module a.b must offer c (Python binds every package on the way as an attribute of its parent)."""
+    from .e1 import get_extractor, ShapeBuilder
+    from .absint import SymNode, SymIdent
+    from . import rules_e1 as R
+    m = get_model(repo)
+
+    def scenario():
+        ex = get_extractor(repo)
+        b = ShapeBuilder({}, 'max')
+        aliases = []
+        for i, text in enumerate(('a.b.c', 'a.d')):
+            p = 'node.names[%d]' % i
+            aliases.append(SymNode('alias', p, 'alias', {'name': SymIdent(text, p + '.name'), 'asname': None}))
+        root = SymNode('Import', 'node', 'stmt', {'names': aliases})
+        sm = ex.summarise('Import', 'import a.b.c, a.d', root, b)
+        bp = R.base_path(sm)
+        if bp is None or bp.raised is not None:
+            return False, 'visit_Import raises on `import a.b.c, a.d`: %s' % (bp.raised if bp else 'no path')
+        tables = bp.top_state.get('tables', {})
+        got = {}
+        for module, want in (('a', {'b', 'd'}), ('a.b', {'c'})):
+            builtins = Obj(m.cls('BaseScope'), {'names': {}}, 'builtins')
+            top = m.scope('SourceScope', builtins)
+            for k, v in tables.items():
+                top.attrs[k] = v
+            top.attrs['source'] = Obj(m.cls('Source'), {'filename': '/p/main.py'}, 'source')
+            name = m.new('ImportedName', module.split('.')[0], (1, 0), (1, 7), module, None)
+            name.attrs['scope'] = top
+            mod = Obj(m.cls('SourceModule'), {'_attrs': {}}, 'module ' + module)
+            project = Obj(m.cls('Project'), {'get_nmodule': Native('get_nmodule', lambda it, a, k, _m=mod: _m)}, 'project')
+            ctx = Obj(m.cls('EvalCtx'), {'project': project}, 'ctx')
+            r = m.it.call(m.it.getattr(name, 'resolve'), [ctx], {})
+            extra = set()
+            if isinstance(r, Obj) and r is not mod:
+                for v in r.attrs.values():
+                    if isinstance(v, dict):
+                        extra |= {str(x) for x in v}
+            got[module] = (extra, want)
+        ok = all(want <= extra for extra, want in got.values())
+        return ok, 'after `import a.b.c, a.d` (tables left by visit_Import: %s) the value of `a` offers the submodules %s (must include b and d), ' \
+            'the value of a.b offers %s (must include c)' % (tables, sorted(got['a'][0]), sorted(got['a.b'][0]))
+    _guard(scenario, res, rule, 'dotted imports make every package on the way an attribute of its parent', NAME,
+           'what visit_Import records for `import a.b.c` and what ImportedName.resolve reads must agree: a.b (and a.b.c) are reachable '
+           'through the name a')
 
 
 def check_module_level_globals(repo, res, rule):
@@ -999,3 +1048,123 @@ def loop_order_records(repo):
                             out.append((cls, mode, q[0], first[0], alone[q], got))
         return out, n
     return repo.memo('loop-order-model', build)
+
+
+# ---------------------------------------------------------------------------
+# the lookups honour the region graph (C01-R5 / C02-R1 / C03-R1): the graph the extractor builds for a construct, rebuilt from supp's
+# own Flow / LoopFlow objects in the state the extractor leaves them in, asked through supp's own names_at
+# ---------------------------------------------------------------------------
+
+FLOW_STRUCT_ATTRS = ('hint', 'scope', '_names', 'parents')
+
+
+def lookup_reach_records(repo):
+    """For every construct with blocks (reference CFG of pyref) and every structural path of its shapes: the regions of the E1
+    summary are rebuilt as real Flow objects (parents, loops, and whatever further primitive state the extractor wrote on them, e.g.
+    a flag), one name is bound at the end of every block, and at the start of every block (and after the construct) supp's own
+    names_at/lookup is interpreted on a fresh graph.  What the lookup answers is compared with what the region graph says under the
+    resolution semantics the templates assume (sa/templates.py): a binding is visible iff its region is the reader's or an ancestor,
+    certain iff it is on every route.  Loop constructs are left to the loop model (loop_order_records).
+    -> (records, n_queries)"""
+    from . import rules_e1 as R
+    from . import pyref
+    from .templates import Template, reach_relations
+
+    def build():
+        m = get_model(repo)
+        saved = m.it.MAX_STEPS
+        m.it.MAX_STEPS = 3000000
+        m.it.MAX_CALL_DEPTH = 150
+        try:
+            return explore(m)
+        finally:
+            m.it.MAX_STEPS = saved
+            m.it.MAX_CALL_DEPTH = 40
+
+    def explore(m):
+        out = []
+        nq = 0
+        for cls, summs in sorted(R.summaries(repo).items()):
+            if cls in R.DOMAIN_EXCLUDED:
+                continue
+            for s in summs:
+                ref = pyref.block_cfg(s.root)
+                if ref is None:
+                    continue
+                blocks, _preds = ref
+                for sp in R.structural_paths(s):
+                    if any(r['loops'] for r in sp.regions.values()):
+                        continue            # loop_order_records
+                    if any(r['scope'] != 'CURSCOPE' for tok, r in sp.regions.items() if r['hint'] != 'top' or r['parents']):
+                        continue            # regions of a nested scope: the scope chain is decided by the C05 scenarios
+                    t = Template(s.root, sp)
+                    nodes, succ, unvisited = t.block_graph(blocks)
+                    smay, sdom = reach_relations(nodes, succ, True)
+                    # places: (region, position) of each block's entry and exit, as the templates put them
+                    places = {}
+                    for name, lv in blocks.items():
+                        if name in unvisited:
+                            continue
+                        regs = [t.visit_region.get(x.path) for x in lv]
+                        places[(name, 'in')] = (regs[0], t.start(lv[0].path))
+                        last = lv[-1]
+                        if last.sort == 'stmt':
+                            places[(name, 'out')] = (t.canon('exit(%s)' % last.path), ())
+                        else:
+                            places[(name, 'out')] = (regs[-1], t.start(last.path) + pyref.AFTER_ALL)
+                    order = sorted({pos for _r, pos in places.values()})
+                    line_of = {pos: 10 * (i + 1) for i, pos in enumerate(order)}
+                    toks = sorted({tok for tok in t.parents if sp.regions[tok]['scope'] == 'CURSCOPE'} | {'CUR', t.final}
+                                  | {r for r, _ in places.values()} | {p for ps in t.parents.values() for p in ps})
+                    names = {name: 'n%d' % i for i, name in enumerate(sorted(n for n in blocks if n not in unvisited))}
+
+                    def fresh():
+                        m.it.steps = 0
+                        builtins = Obj(m.cls('BaseScope'), {'names': {}}, 'builtins')
+                        top = m.scope('SourceScope', builtins)
+                        tf = m.flow('top', top)
+                        top.attrs['flow'] = tf
+                        fs = m.scope('FuncScope', top, top)
+                        flows = {tok: m.flow(tok, fs) for tok in toks}
+                        fs.attrs['flow'] = flows['CUR']
+                        for tok in toks:
+                            flows[tok].attrs['parents'] = [flows[p] for p in t.parents.get(tok, []) if p != tok]
+                        defaults = {tok: dict(flows[tok].attrs) for tok in toks}
+                        # the state the extractor wrote on a region; a region an expression child "leaves" is the region it was
+                        # visited in (an expression creates none), so what was written there was written on that region
+                        for tok, info in sp.regions.items():
+                            c = t.canon(tok)
+                            o = info.get('obj')
+                            if c not in flows or o is None:
+                                continue
+                            for k, v in o.attrs.items():
+                                if k in FLOW_STRUCT_ATTRS or not (isinstance(v, (bool, int, str)) or v is None):
+                                    continue
+                                if tok != c and defaults[c].get(k, v) == v:
+                                    continue
+                                flows[c].attrs[k] = v
+                        ids = {}
+                        for name, ident in names.items():
+                            reg, pos = places[(name, 'out')]
+                            nm = m.name(ident, (line_of[pos] + 5, 0))
+                            m.add(flows[reg], nm)
+                            ids[ident] = nm.oid
+                        return flows, ids
+                    readers = [(b, places[(b, 'in')]) for b in sorted(names)] + [('after', (t.final, None))]
+                    for b, (reg, pos) in readers:
+                        flows, ids = fresh()
+                        line = line_of[pos] if pos is not None else 10 * (len(order) + 5)
+                        tab = m.names_at(flows[reg], (line, 0))
+                        nq += 1
+                        b_in = (b, 'in') if b != 'after' else 'after'
+                        for a, ident in names.items():
+                            d = m.describe(m.lookup(tab, ident))
+                            sem_may = d is not None and ids[ident] in d
+                            sem_dom = sem_may and 'UNDEF' not in d
+                            a_out = (a, 'out')
+                            out.append({'cls': cls, 'variant': s.variant, 'a': R.gen(a), 'b': R.gen(b),
+                                        'struct_may': b_in in smay.get(a_out, ()), 'sem_may': sem_may,
+                                        'struct_dom': a_out in sdom.get(b_in, ()), 'sem_dom': sem_dom,
+                                        'line': R.method_line(repo, cls)})
+        return out, nq
+    return repo.memo('lookup-reach-model', build)
